@@ -94,6 +94,8 @@ class Flow(object):
         # which of the loops it reached were unresolved at that time; it is
         # reused only in a context that agrees on those loops.
         top = self.scope.top
+        if not top._frames and self.scope not in top._warmed:
+            top.warm(self.scope)
         resolving = top._resolving
         try:
             entries = self._cache[attr]
@@ -222,6 +224,25 @@ class SourceScope(Scope):
         # loops they found unresolved, loops they reached)
         self._resolving = []  # type: list[LoopFlow]
         self._frames = []  # type: list[tuple[int, set[LoopFlow], set[LoopFlow]]]
+        self._warmed = set()  # type: set[Scope]
+
+    def warm(self, scope):
+        # type: (Scope) -> None
+        # A query in a scope with very many regions (a long module or function)
+        # would recurse through all the regions before it and exceed the
+        # recursion limit. Resolve the regions of such a scope - and of the
+        # scopes around it, outermost first - in the order they were created:
+        # each then finds its predecessors resolved.
+        chain = []
+        while isinstance(scope, Scope) and scope not in self._warmed:
+            chain.append(scope)
+            self._warmed.add(scope)
+            scope = scope.parent
+        for scope in reversed(chain):
+            flows = [f for f in self._all_flows if f.scope is scope]
+            if len(flows) >= 50:
+                for flow in flows:
+                    flow.names
 
     def note_loops(self, loops):
         # type: (t.Iterable[LoopFlow]) -> None
